@@ -22,7 +22,8 @@ layouts where a content record of a still-open file ends exactly at the end of c
 chunk j+1. A = authenticated repair of the damaged archive, U = unauthenticated repair of it, T_j = unauthenticated repair \
 of the intact archive cut after its first j chunks (j = first damaged chunk). Oracle: every file of A is a prefix of the \
 original; A lists no file T_j lacks and |A[f]| <= |T_j[f]| (nothing at or after the failed chunk is used); A[f] is a prefix \
-of U[f]. Non-trivial = fault in chunk j with at least one complete chunk after it; distinct = (archive hash, fault). \
+of U[f]; A and U are computed from memory for a quarter of the faults and through sources returning fewer bytes than \
+asked (1, 3..16, chunk-1 bytes per read) for the others. Non-trivial = fault in chunk j with at least one complete chunk after it; distinct = (archive hash, fault). \
 Faults whose first damaged chunk is chunk 0 are excluded by construction (open finding) and counted.";
 
 #[derive(Clone, Debug, PartialEq, Eq, Hash, Serialize, Deserialize)]
@@ -132,10 +133,26 @@ pub fn check_fault(a: &Arch, f: &Fault, tj_cache: &mut BTreeMap<usize, BTreeMap<
         return Ok(());
     }
     st.eval(1);
-    let au = match prog::repair(&x, &a.reader_keys, true) {
+    // the damaged archive is read from memory or, for three faults out of four, through a source that returns fewer bytes
+    // than asked (what a pipe or a second volume does): the statement holds whatever the source
+    let sched: Option<Vec<u16>> = match util::hash64(format!("{f:?}").as_bytes()) % 4 {
+        0 => None,
+        1 => Some(if SCALED { vec![1] } else { vec![7, 4096, 1] }),
+        2 => Some(vec![5, 16, 3]),
+        _ => Some(vec![(CHUNK - 1) as u16, 17]),
+    };
+    st.label(if sched.is_some() { "source: short reads" } else { "source: memory" });
+    let repair = |auth: bool| match &sched {
+        None => prog::repair(&x, &a.reader_keys, auth),
+        Some(s) => prog::repair_from(crate::io::ThrottledReader::new(&x, s.clone()), &a.reader_keys, auth),
+    };
+    let au = match repair(true) {
         Ok(o) => o,
         // crashes and errors of repair are C02/C08's business; nothing is output here
-        Err(_) => return Ok(()),
+        Err(_) => {
+            st.label("skipped: repair returned an error (judged by C02 / C08)");
+            return Ok(());
+        }
     };
     // (1) prefixes of the original
     for (name, file) in &au.files {
@@ -162,7 +179,7 @@ pub fn check_fault(a: &Arch, f: &Fault, tj_cache: &mut BTreeMap<usize, BTreeMap<
         }
     }
     // (3) unauthenticated mode returns at least as much, authenticated result is a prefix of it
-    if let Ok(un) = prog::repair(&x, &a.reader_keys, false) {
+    if let Ok(un) = repair(false) {
         for (name, file) in &au.files {
             match un.files.get(name) {
                 Some(u) if util::is_prefix(&file.data, &u.data) => {}
@@ -181,7 +198,11 @@ fn oracle(c: &Case, st: &mut Stats) -> Result<(), String> {
     let a = match prog::make_arch(&c.program) {
         Ok(a) => a,
         Err(e) if e.starts_with("HARNESS") => return Err(e),
-        Err(_) => return Ok(()),
+        Err(_) => {
+            // the writer refused a valid program: that is C01's verdict, nothing to judge here - but it is counted
+            st.label("skipped: writer failed on the program (judged by C01)");
+            return Ok(());
+        }
     };
     if a.res.layers & 1 == 0 {
         return Ok(());
